@@ -694,30 +694,32 @@ pub(crate) mod verif_mpmc {
                 } else if len > 0 { 20 } else if cls == 0 { stag[t] } else { 30 };
                 assert!(first.0 == exp_first, "C09 mpmc step: buffer order differs from FIFO after the operation");
                 core::mem::forget(first);
-            } else if (p & P01) != 0 {
-                // I5 queue membership and stored wakers
+            } else if (p & (P01 | P10)) != 0 {
+                // I5 queue membership and stored wakers (the stored-waker part is shared with C10)
                 let g = ch.inner.lock();
                 let sn: [*const SNode; 2] = [&s0.wait_node, &s1.wait_node];
                 let rn: [*const RNode; 2] = [&r0.wait_node, &r1.wait_node];
-                assert!(g.send_waiters.verif_len_checked(2) == Some(regs2), "C01 mpmc step: send queue inconsistent or holds a node that is not a live parked sender");
-                assert!(g.receive_waiters.verif_len_checked(2) == Some(regr2), "C01 mpmc step: receive queue inconsistent or holds a node that is not a live registered receiver");
+                if (p & P01) != 0 { assert!(g.send_waiters.verif_len_checked(2) == Some(regs2), "C01 mpmc step: send queue inconsistent or holds a node that is not a live parked sender"); }
+                if (p & P01) != 0 { assert!(g.receive_waiters.verif_len_checked(2) == Some(regr2), "C01 mpmc step: receive queue inconsistent or holds a node that is not a live registered receiver"); }
                 i = 0;
                 while i < 2 {
                     let shs = alive_s[i] && ss2[i] == 1;
-                    assert!(g.send_waiters.verif_pos_from_tail(sn[i], 2).is_some() == shs, "C01 mpmc step: send queue membership differs from {alive and parked}");
-                    if !shs { assert!(unsafe { &*sn[i] }.verif_unlinked(), "C01 mpmc step: a send future outside the queue still carries links"); }
+                    if (p & P01) != 0 { assert!(g.send_waiters.verif_pos_from_tail(sn[i], 2).is_some() == shs, "C01 mpmc step: send queue membership differs from {alive and parked}"); }
+                    if !shs { if (p & P01) != 0 { assert!(unsafe { &*sn[i] }.verif_unlinked(), "C01 mpmc step: a send future outside the queue still carries links"); } }
                     let shr = alive_r[i] && rs2[i] == 1;
-                    assert!(g.receive_waiters.verif_pos_from_tail(rn[i], 2).is_some() == shr, "C01 mpmc step: receive queue membership differs from {alive and registered}");
-                    if !shr { assert!(unsafe { &*rn[i] }.verif_unlinked(), "C01 mpmc step: a receive future outside the queue still carries links"); }
+                    if (p & P01) != 0 { assert!(g.receive_waiters.verif_pos_from_tail(rn[i], 2).is_some() == shr, "C01 mpmc step: receive queue membership differs from {alive and registered}"); }
+                    if !shr { if (p & P01) != 0 { assert!(unsafe { &*rn[i] }.verif_unlinked(), "C01 mpmc step: a receive future outside the queue still carries links"); } }
                     if shs {
                         let lwc: &WakeCell = if i == polled_s { if polled_w { cells_sa[i] } else { cells_sb[i] } } else if lws[i] { cells_sa[i] } else { cells_sb[i] };
                         let ok = match &unsafe { &*sn[i] }.task { Some(w) => w.will_wake(&ManuallyDrop::new(mk_waker(lwc))), None => false };
-                        assert!(ok, "C01 mpmc step: parked sender does not store the waker of its latest poll");
+                        if (p & P01) != 0 { assert!(ok, "C01 mpmc step: parked sender does not store the waker of its latest poll"); }
+                        if (p & P10) != 0 { assert!(ok, "C10 mpmc step: parked sender does not store the waker of its latest poll (it would be woken through a stale waker)"); }
                     }
                     if shr {
                         let lwc: &WakeCell = if i == polled_r { if polled_w { cells_ra[i] } else { cells_rb[i] } } else if lwr[i] { cells_ra[i] } else { cells_rb[i] };
                         let ok = match &unsafe { &*rn[i] }.task { Some(w) => w.will_wake(&ManuallyDrop::new(mk_waker(lwc))), None => false };
-                        assert!(ok, "C01 mpmc step: registered receiver does not store the waker of its latest poll");
+                        if (p & P01) != 0 { assert!(ok, "C01 mpmc step: registered receiver does not store the waker of its latest poll"); }
+                        if (p & P10) != 0 { assert!(ok, "C10 mpmc step: registered receiver does not store the waker of its latest poll (it would be woken through a stale waker)"); }
                     }
                     i += 1;
                 }
@@ -728,6 +730,10 @@ pub(crate) mod verif_mpmc {
                 if alive_r[0] { assert!(r0.is_terminated() == (rs2[0] == 3), "C17 mpmc step: receive future is_terminated() wrong"); }
                 if alive_r[1] { assert!(r1.is_terminated() == (rs2[1] == 3), "C17 mpmc step: receive future is_terminated() wrong"); }
                 if polled_s < 2 { assert!((ss2[polled_s] == 3) == (got.is_some() || (ss[polled_s] == 2 || (ss[polled_s] == 0 && !closed && len < cap))), "C17 mpmc step: a send future terminated without completing (or vice versa)"); }
+                if cls == 2 && sub == 2 {
+                    let f = if t == 0 { &s0 } else { &s1 };
+                    assert!(f.is_terminated(), "C17 mpmc step: a send future is not terminated after cancel()");
+                }
             }
             core::mem::forget(ch);
         }
